@@ -987,7 +987,9 @@ dispatch_write(dispatch_fd_t fd, dispatch_data_t data, dispatch_queue_t queue,
 			int err = fd_entry->err;
 			dispatch_async(queue, ^{
 				_dispatch_fd_debug("convenience handler invoke", fd);
-				handler(NULL, err);
+				// nothing could be written: hand all of the data back
+				handler(data, err);
+				_dispatch_io_data_release(data);
 			});
 			_dispatch_release(queue);
 			return;
